@@ -46,7 +46,7 @@ def graphToJson (g : LGraph) : Json :=
     ("nodes", .arr (g.nodes.map (fun n => Json.mkObj [
       ("n", nodeToJson n),
       ("tags", Json.mkObj (allTags.filterMap (fun t => (g.tag n t).map (fun b => (tagName t, Json.bool b))))),
-      ("payload", match g.payload n with | some c => columnToJson c | none => .null)])).toArray),
+      ("payload", match g.payload n with | some (.col c) => columnToJson c | some (.sub a) => Json.mkObj [("alias", .str a)] | none => .null)])).toArray),
     ("edges", .arr (g.edgesOrdered.map (fun e => Json.mkObj [
       ("u", nodeToJson e.1), ("v", nodeToJson e.2),
       ("type", match g.ety e.1 e.2 with | some t => .str (etypeName t) | none => .null),
